@@ -1,4 +1,5 @@
 import FxVerif.Model.C20
+import FxVerif.Model.C20Run
 import FxVerif.Model.Util
 /-! line-protocol driver for the C20 model: `lake env lean --run Driver/C20.lean < ops.txt`
 
@@ -8,6 +9,12 @@ import FxVerif.Model.Util
 * `target <hex>` → `ibc <prefix> <port> <channel>` / `plain <target>` (hex fields)
 * `b32 <hex>` → `ok <hex>` / `err`
 * `hexstr <hex>` → `ok` / `err` (does `hex.DecodeString` accept the text)
+* `modname <hex>` → `ok` / `err` (`ValidateModuleName`); `b32s <hex of 32 bytes>` → hex of `Byte32ToString`
+* `pcv <precompile>.<abi method> <ArgsType> <feature>=<value> …` → `ok | err | panic`: verdict of the `Validate` program
+  REGENERATED from the Go AST (`Gen/C20Run.lean`) on the decoded argument struct described by the features (keyed by Go
+  field name: `len:Tokens=2`, `big:Amount=12` (`big:X=nil` for a nil pointer), `zaddr:Refund=0`, `empty:Receipt=1`,
+  `zarr:Target=0`, `num:SortBy=1`, `ext:ValidateModuleName:Chain=1`); `bad-args-type` when the method table generated from
+  `NewPrecompiledContract` / `UnpackInput` names a different args struct than the harness decoded into
 -/
 open FxVerif FxVerif.Util FxVerif.Model.C20Base FxVerif.Model.C20
 
@@ -23,9 +30,42 @@ def parsePair (w : String) : Option (String × Int) :=
 
 def hexS (s : List Char) : String := hex ((String.ofList s).toUTF8.toList.map (·.toNat))
 
+/-- environment of a `pcv` line: features and program are keyed by the Go field name of the args struct -/
+def pcvEnv (kvs : List (String × String)) : FxVerif.Model.C20Args.Env :=
+  let get (pfx f : String) : Option String := (kvs.find? (·.1 == pfx ++ f)).map (·.2)
+  let nat (pfx f : String) : Nat := ((get pfx f).bind String.toNat?).getD 0
+  let flag (pfx f : String) : Bool := (get pfx f) == some "1"
+  -- `ValidateModuleName` is MODELLED (computed from the field's bytes, `str:<Field>=<hex>`); `ValAddressFromBech32` (bech32) is
+  -- an environment input reported by the harness
+  let ext (fn f : String) : Bool :=
+    if fn == "ValidateModuleName" then
+      match (get "str:" f).bind unhex with
+      | some bs => !validateModuleName bs
+      | none => true
+    else flag ("ext:" ++ fn ++ ":") f
+  { len := nat "len:", big := fun f => (get "big:" f).bind parseInt, elemsOk := fun _ => true,
+    zeroAddr := flag "zaddr:", emptyStr := flag "empty:", zeroArr := flag "zarr:",
+    ext := ext, num := nat "num:" }
+
+def pcv (key tname : String) (feats : List String) : String :=
+  match key.splitOn "." with
+  | [pc, abi] =>
+    match FxVerif.Gen.C20Run.methods.find? (fun m => m.pc == pc && m.abiName == abi) with
+    | none => "bad-method"
+    | some m =>
+      if m.argsType != tname then "bad-args-type" else
+      match FxVerif.Model.C20Args.findArgs FxVerif.Gen.C20Run.argsTypes tname with
+      | none => "bad-args-type"
+      | some t =>
+        let kvs := feats.filterMap fun w => match w.splitOn "=" with | [k, v] => some (k, v) | _ => none
+        match FxVerif.Model.C20Args.run (pcvEnv kvs) t.prog with
+        | .ok => "ok" | .err => "err" | .panic => "panic"
+  | _ => "bad-op"
+
 def step (_ : Unit) (line : String) : Unit × String :=
   match words line with
   | "reset" :: _ => ((), "ok")
+  | "pcv" :: key :: tname :: feats => ((), pcv key tname feats)
   | ["fee", mode, msgs, exempt, maxB, gas, fee, prices] =>
     match maxB.toNat?, gas.toNat?, (parseList fee).mapM parsePair, (parseList prices).mapM parsePair with
     | some mb, some g, some fs, some ps =>
@@ -43,6 +83,14 @@ def step (_ : Unit) (line : String) : Unit × String :=
   | ["b32", h] =>
     match unhex h with
     | some bs => ((), match strToByte32 bs with | .ok out => "ok " ++ hex out | .error _ => "err")
+    | none => ((), "bad-op")
+  | ["modname", h] =>
+    match unhex h with
+    | some bs => ((), if validateModuleName bs then "ok" else "err")
+    | none => ((), "bad-op")
+  | ["b32s", h] =>
+    match unhex h with
+    | some bs => ((), hex (byte32ToString bs))
     | none => ((), "bad-op")
   | ["hexstr", h] =>
     match unhexStr h with
